@@ -209,7 +209,9 @@ def rule_b(ctx):
 
 ACCESSOR_MUTATORS = [(S.LIST, '__setitem__'), (S.LIST, '__delitem__'),
                      (S.DICT, '__setitem__'), (S.DICT, '__delitem__'),
-                     (S.OBJECT, '__setattr__')]
+                     (S.OBJECT, '__setattr__'),
+                     ('pyglove.core.symbolic.functor.Functor', '__delattr__'),
+                     (S.DICT, '__setattr__'), (S.DICT, '__delattr__')]
 REBIND_PATH = [(S.SYMBOLIC, 'rebind'), (S.SYMBOLIC, 'sym_rebind'),
                (S.SYMBOLIC, '_set_item_of_current_tree'),
                (S.LIST, '_sym_rebind'), (S.DICT, '_sym_rebind'),
@@ -250,12 +252,6 @@ def rule_c(ctx):
            '(rebind must keep working when accessors are disabled)', f.loc,
            '' if ok else 'accessor permission consulted on the rebind path at line %d'
            % (bad[0].lineno if bad else reads[0].lineno))
-  # Functor.__delattr__: information only (see DESIGN C08.c)
-  fd = idx.find_func('pyglove.core.symbolic.functor.Functor.__delattr__')
-  if fd is not None:
-    ctx.info('C08.c', fd.fq, 'deletes through the attribute container '
-             '(honours scoped overrides, not the per-object accessor flag); '
-             'not armed', fd.loc)
 
 
 ALLOWED_PRIMITIVE_CALLERS = {
@@ -265,6 +261,35 @@ ALLOWED_PRIMITIVE_CALLERS = {
     'pyglove.core.symbolic.object.Object._set_item_without_permission_check':
         'the primitive itself, delegating to the attribute container',
 }
+
+
+def _is_private(f):
+  return f.name.startswith('_') and not f.name.startswith('__')
+
+
+def _unguarded_callers(idx, ga, f, _depth=0, _seen=None):
+  """Callers (in the symbolic package) that reach the private wrapper `f` on a
+  path with no seal guard; a caller that is itself a private wrapper passes the
+  obligation on to its own callers."""
+  _seen = _seen or {f.fq}
+  bad, n = [], 0
+  for c in idx.all_funcs():
+    if c is f or not c.module.name.startswith('pyglove.core.symbolic.') or c.module.relpath.endswith('_test.py'):
+      continue
+    if not any((A.call_name(x) or '').split('.')[-1] == f.name and '.' in (A.call_name(x) or '')
+               for x in A.calls_in(c.node)):
+      continue
+    n += 1
+    hits = [r for r in ga.unguarded(c) if f.fq in r[0]]
+    if not hits:
+      continue
+    if _is_private(c) and _depth < 3 and c.fq not in _seen:
+      bad += _unguarded_callers(idx, ga, c, _depth + 1, _seen | {c.fq})
+    else:
+      bad.append(f'{c.qualname} reaches {f.name} (-> the primitive) before any seal guard')
+  if n == 0 and _depth == 0:
+    return []     # no caller: dead wrapper, nothing reaches the primitive through it
+  return bad
 
 
 def rule_d(ctx):
@@ -292,13 +317,13 @@ def rule_d(ctx):
              + ALLOWED_PRIMITIVE_CALLERS[f.fq] + ')', f.loc)
       continue
     if getattr_sites:
-      # typing apply: List._apply assigns elements of the value being *applied*
-      ok = f.fq == 'pyglove.core.typing.value_specs.List._apply'
-      ctx.ob('C08.d', f.fq, ok,
-             'string-resolved use of the unchecked primitive is confined to '
-             'typing List._apply (in-place element formalisation of the value '
-             'being validated)', f.loc,
-             'new string-resolved caller of the unchecked primitive')
+      # the receiver is a value of unknown state (it may be sealed) and no guard of
+      # the symbolic layer is in reach of the caller: never allowed.  (typing
+      # List._apply used to be tolerated here as "in-place formalisation of the
+      # value being validated" - it converted the elements of a SEALED list.)
+      ctx.ob('C08.d', f.fq, False,
+             'the unchecked primitive is not looked up by name on a foreign value', f.loc,
+             'string-resolved use of the unchecked primitive: the write skips the seal check of the receiver')
       continue
     if not f.module.name.startswith('pyglove.core.symbolic.'):
       ctx.ob('C08.d', f.fq, False,
@@ -308,6 +333,16 @@ def rule_d(ctx):
     # must be guarded in this function on the same receiver
     res = [r for r in ga.unguarded(f) if len(r[0]) == 1 and S.PRIMITIVE in r[1]]
     ok = not res
+    if res and _is_private(f) and all(r[1].startswith('self.') for r in res):
+      # a private wrapper of the primitive ("the permission checks are up to the
+      # caller"): it inherits the who-may-call rule - every caller, transitively
+      # through further private wrappers, passes a seal guard before the call
+      bad = _unguarded_callers(idx, ga, f)
+      ctx.ob('C08.d', f.fq, not bad,
+             'private wrapper of the unchecked primitive: every caller passes a seal guard on the same '
+             'receiver before calling it', f.loc,
+             '; '.join(bad))
+      continue
     ctx.ob('C08.d', f.fq, ok,
            'call of the unchecked primitive is dominated by a seal guard on the '
            'same receiver', f.loc,
@@ -315,6 +350,26 @@ def rule_d(ctx):
            None if ok else dict(path=res[0][3]))
   if n < 8:
     raise AnalysisError(f'C08.d found only {n} callers of the primitive')
+  # methods of the containers that code outside the symbolic package resolves by
+  # name (`getattr(value, '<name>', None)`, duck typing from the typing layer):
+  # if such a method writes, it passes the seal guard itself
+  reach = S.GuardAnalysis(idx, '__no_such_guard__', make_sink_finder(idx))
+  for f in idx.all_funcs():
+    if f.module.relpath.endswith('_test.py') or f.module.name.startswith('pyglove.core.symbolic.'):
+      continue
+    for c in A.calls_in(f.node):
+      if A.call_name(c) != 'getattr' or len(c.args) < 2 or A.const_str(c.args[1]) is None:
+        continue
+      name = A.const_str(c.args[1])
+      for cls_fq in (S.LIST, S.DICT):
+        m = idx.cls(cls_fq).methods.get(name)
+        if m is None or name == S.PRIMITIVE or not reach.unguarded(m, cls_fq):
+          continue
+        res = ga.unguarded(m, cls_fq)
+        ctx.ob('C08.d', f'{f.fq}#getattr:{name}', not res,
+               f'a writer of {cls_fq.split(".")[-1]} resolved by name from outside the symbolic package passes the '
+               f'seal guard itself', f'{f.module.relpath}:{c.lineno}',
+               '' if not res else f'{res[0][1]} at {res[0][2]} reachable with no seal guard through {m.qualname}')
 
 
 PREDICATES = {
@@ -403,13 +458,61 @@ def _reads_attr(node, attr):
   return any(isinstance(n, ast.Attribute) and n.attr == attr for n in ast.walk(node))
 
 
+SEAL_NAMES = ('seal', 'sym_seal')
+
+
+def _alias_target(f):
+  """`def m(self, x): return self.other(x)` -> 'other' (docstring allowed)."""
+  body = [b for b in f.node.body if not (isinstance(b, ast.Expr) and isinstance(b.value, ast.Constant))]
+  if len(body) == 1 and isinstance(body[0], ast.Return) and isinstance(body[0].value, ast.Call):
+    d = A.call_name(body[0].value) or ''
+    if d.startswith('self.') and d.count('.') == 1:
+      return d.split('.')[1]
+  return None
+
+
+def _resolve_seal(idx, cls_fq, name):
+  """What `value.<name>(flag)` runs for an instance of cls: aliases followed through the MRO."""
+  seen = set()
+  while name not in seen:
+    seen.add(name)
+    f = idx.lookup_method(cls_fq, name)
+    if f is None:
+      return None
+    t = _alias_target(f)
+    if t not in SEAL_NAMES:
+      return f
+    name = t
+  return None
+
+
+def _flag_param(f):
+  a = f.node.args.args
+  return a[1].arg if len(a) > 1 else None
+
+
 def rule_f(ctx):
-  """Deep seal: each seal override reaches every symbolic child + base seal."""
+  """Deep seal: each seal override reaches every symbolic child + base seal,
+  and BOTH public names (`seal`, `sym_seal` - documented as aliases) run it."""
   idx = ctx.index
-  for cls_fq in (S.LIST, S.DICT):
-    f = idx.lookup_method(cls_fq, 'seal')
-    if f is None or idx.enclosing_class(f).fq != cls_fq:
+  SUP = tuple(f'super().{n}' for n in SEAL_NAMES)
+  deep = {}
+  for cls_fq in (S.LIST, S.DICT, S.OBJECT):
+    own = [idx.lookup_method(cls_fq, n) for n in SEAL_NAMES]
+    own = [f for f in own if f is not None and idx.enclosing_class(f).fq == cls_fq and _alias_target(f) not in SEAL_NAMES]
+    if not own:
       raise AnalysisError(f'{cls_fq}.seal override vanished')
+    deep[cls_fq] = own[0]
+    for n in SEAL_NAMES:
+      r = _resolve_seal(idx, cls_fq, n)
+      ctx.ob('C08.f', f'{cls_fq.split(".")[-1]}.{n}#deep', r is not None and r.fq == own[0].fq,
+             f'`{n}` on a container/object runs the deep seal (the two names are documented as aliases)',
+             (r or own[0]).loc,
+             f'`{n}` resolves to {r.fq if r else "nothing"}, which only stores the flag of the node: the descendants '
+             f'keep their state (d.{n}(True); d.child.x = 1 succeeds)')
+  for cls_fq in (S.LIST, S.DICT):
+    f = deep[cls_fq]
+    flag = _flag_param(f)
     problems = []
     loops = [n for n in ast.walk(f.node) if isinstance(n, ast.For)
              and A.has_call(n.iter, lambda d: d in ('self.sym_values', 'self.sym_items'))]
@@ -418,14 +521,14 @@ def rule_f(ctx):
       tv = set(A.assigned_names(lp.target))
       for c in A.calls_in(lp):
         d = A.call_name(c)
-        if d and d.split('.')[-1] in ('seal', 'sym_seal') and d.split('.')[0] in tv:
-          if c.args and isinstance(c.args[0], ast.Name) and c.args[0].id == 'sealed':
+        if d and d.split('.')[-1] in SEAL_NAMES and d.split('.')[0] in tv:
+          if c.args and isinstance(c.args[0], ast.Name) and c.args[0].id == flag:
             child_seal = True
-          elif A.kwarg(c, 'sealed') is not None:
+          elif any(isinstance(k.value, ast.Name) and k.value.id == flag for k in c.keywords):
             child_seal = True
     if not child_seal:
-      problems.append('no loop over sym_values()/sym_items() sealing each child with the `sealed` argument')
-    sup = A.find_calls(f.node, lambda d: d in ('super().seal', 'super().sym_seal', 'self.sym_seal'))
+      problems.append('no loop over sym_values()/sym_items() sealing each child with the flag argument')
+    sup = A.find_calls(f.node, lambda d: d in SUP)
     g = C.cfg_of(f.node)
     if not sup:
       problems.append('base seal not called')
@@ -434,7 +537,7 @@ def rule_f(ctx):
       # the container says nothing about its descendants (a child that was sealed before it was
       # inserted, or inserted under as_sealed(False)), so `if self.is_sealed == sealed: return`
       # is NOT a harmless shortcut: p.seal(False) would leave a sealed child sealed
-      pass_pred = lambda n: any(A.call_name(c) in ('super().seal', 'super().sym_seal', 'self.sym_seal') for c in n.calls())
+      pass_pred = lambda n: any(A.call_name(c) in SUP for c in n.calls())
       wit = g.can_skip(g.entry, pass_pred)
       if wit:
         problems.append(f'a path skips the base seal: {wit}')
@@ -443,32 +546,29 @@ def rule_f(ctx):
       if wl:
         problems.append(f'a path returns without visiting the children: {wl} - unsealing (or sealing) the container '
                         f'leaves descendants in the other state')
-    ctx.ob('C08.f', f.fq, not problems,
+    ctx.ob('C08.f', f'{cls_fq}.seal', not problems,
            'seal visits every symbolic child with the same flag and then the '
            'base seal', f.loc, '; '.join(problems))
-  f = idx.lookup_method(S.OBJECT, 'seal')
-  if f is None:
-    raise AnalysisError('Object.seal vanished')
-  cont = A.find_calls(f.node, lambda d: d == 'self._sym_attributes.seal')
-  sup = A.find_calls(f.node, lambda d: d in ('super().seal', 'super().sym_seal', 'self.sym_seal'))
-  ok_arg = all(c.args and isinstance(c.args[0], ast.Name) and c.args[0].id == 'sealed'
+  f = deep[S.OBJECT]
+  flag = _flag_param(f)
+  is_cont_name = lambda d: d in tuple(f'self._sym_attributes.{n}' for n in SEAL_NAMES)
+  cont = A.find_calls(f.node, is_cont_name)
+  sup = A.find_calls(f.node, lambda d: d in SUP)
+  ok_arg = all(c.args and isinstance(c.args[0], ast.Name) and c.args[0].id == flag
                for c in cont + sup)
   g = C.cfg_of(f.node)
-  # an `is_sealed == sealed` early return (the idiom List/Dict use) is tolerated
-  early = [n for n in g.nodes if n.kind == 'test' and 'is_sealed' in A.unparse(n.ast)
-           and 'sealed' in A.names_read(n.ast)]
-  starts = [g.entry]
-  if early:
-    starts = [m for m, lab in early[0].succ if lab == 'false']
-  is_cont = lambda n: any(A.call_name(c) == 'self._sym_attributes.seal' for c in n.calls())
-  is_sup = lambda n: any(A.call_name(c) in ('super().seal', 'super().sym_seal', 'self.sym_seal') for c in n.calls())
-  skip = any((not is_cont(st)) and g.can_skip(st, is_cont) for st in starts)
-  skip2 = any((not is_sup(st)) and g.can_skip(st, is_sup) for st in starts)
+  # no early return on an equal flag is tolerated (it was, until the same shortcut in
+  # Dict/List.seal turned out to be a defect: the object's flag says nothing about a child)
+  is_cont = lambda n: any(is_cont_name(A.call_name(c) or '') for c in n.calls())
+  is_sup = lambda n: any(A.call_name(c) in SUP for c in n.calls())
+  skip = g.can_skip(g.entry, is_cont)
+  skip2 = g.can_skip(g.entry, is_sup)
   ok = bool(cont) and bool(sup) and ok_arg and not skip and not skip2
-  ctx.ob('C08.f', f.fq, ok,
+  ctx.ob('C08.f', S.OBJECT + '.seal', ok,
          'Object.seal seals the attribute container and the object itself with '
-         'the same flag on every path that changes the flag', f.loc,
+         'the same flag on every path', f.loc,
          'container/base seal missing, skipped on some path, or called with a different flag')
+  early = [n for n in g.nodes if n.kind == 'test' and _reads_attr(n.ast, 'is_sealed')]
   # construction: an object born sealed has a sealed attribute container.
   fi = idx.lookup_method(S.OBJECT, '__init__')
   ctor = [c for c in A.calls_in(fi.node) if (A.call_name(c) or '').endswith('Dict')
@@ -481,7 +581,7 @@ def rule_f(ctx):
     sup_init = [c for c in A.calls_in(fi.node) if A.call_name(c) == 'super().__init__']
     born = bool(sup_init) and isinstance(A.kwarg(sup_init[0], 'sealed'), ast.Name)
     same = (isinstance(sk, ast.Name) and born and sk.id == A.kwarg(sup_init[0], 'sealed').id)
-    final = [c for c in A.calls_in(fi.node) if A.call_name(c) == 'self.seal' and c.args
+    final = [c for c in A.calls_in(fi.node) if A.call_name(c) in ('self.seal', 'self.sym_seal') and c.args
              and isinstance(c.args[0], ast.Name) and born and c.args[0].id == A.kwarg(sup_init[0], 'sealed').id]
     if not same and not (final and not early):
       problems.append('the attribute container is not created with the object\'s sealed flag, and the '
@@ -496,16 +596,16 @@ def rule_f(ctx):
   # not set the flag first.
   for cls_fq in (S.LIST, S.DICT):
     fi = idx.lookup_method(cls_fq, '__init__')
-    fs = idx.lookup_method(cls_fq, 'seal')
+    fs = _resolve_seal(idx, cls_fq, 'seal')
     gi = C.cfg_of(fi.node)
     problems = []
-    seal_calls = [k for k in gi.nodes if k.ast is not None and any(A.call_name(c) == 'self.seal' for c in k.calls())]
+    seal_calls = [k for k in gi.nodes if k.ast is not None and any(A.call_name(c) in ('self.seal', 'self.sym_seal') for c in k.calls())]
     if not seal_calls:
       problems.append('the constructor no longer calls self.seal(sealed)')
     else:
       if gi.can_skip(gi.entry, lambda n: n in seal_calls):
         problems.append('a normal path through the constructor skips self.seal(sealed)')
-      c = [c for c in seal_calls[0].calls() if A.call_name(c) == 'self.seal'][0]
+      c = [c for c in seal_calls[0].calls() if A.call_name(c) in ('self.seal', 'self.sym_seal')][0]
       flag = c.args[0] if c.args else A.kwarg(c, 'sealed')
       if not isinstance(flag, ast.Name):
         problems.append('self.seal is not called with the constructor\'s sealed argument')
@@ -549,16 +649,15 @@ FLAG_WRITERS = {
     S.SYMBOLIC + '.__init__': 'constructor',
     S.SYMBOLIC + '.sym_seal': 'the seal setter',
     S.SYMBOLIC + '.set_accessor_writable': 'the accessor-writable setter',
-    S.DICT + '.use_value_spec': 'dropping the value spec (use_value_spec(None)) re-opens accessor writes - documented',
-    S.LIST + '.use_value_spec': 'dropping the value spec (use_value_spec(None)) re-opens accessor writes - documented',
 }
 
 
 def rule_h(ctx):
   """Who may change the protection flags: `_sealed` / `_accessor_writable` are
-  written only by the constructor, their setters and use_value_spec(None); and
-  no mutator drops the value spec on the way (Dict.clear parks the spec in a
-  local instead), because that silently re-enables accessor writes."""
+  written only by the constructor and their setters (use_value_spec(None) used
+  to re-open accessor writes as a side effect: the table allowed it with the
+  reason 'documented', which it is not - corrected); and no mutator drops the
+  value spec on the way (Dict.clear parks the spec in a local instead)."""
   idx = ctx.index
   flags_ = ('_sealed', '_accessor_writable')
   bad = []
@@ -584,7 +683,7 @@ def rule_h(ctx):
           if f.fq not in FLAG_WRITERS:
             bad.append(f'{f.qualname} writes {hit} (line {x.lineno})')
   ctx.ob('C08.h', 'protection-flag-writers', not bad and n >= 3,
-         'the sealed / accessor-writable flags are written only by the constructor, their setters and use_value_spec(None)',
+         'the sealed / accessor-writable flags are written only by the constructor and their setters',
          'pyglove/core/symbolic/base.py:1', '; '.join(bad) or 'flag writers not found')
   # no container mutator drops the spec
   for cls_fq in (S.LIST, S.DICT):
@@ -592,14 +691,12 @@ def rule_h(ctx):
     for name, f in sorted(c.methods.items()):
       if name in ('use_value_spec', '__init__', '__setstate__', '_sym_clone'):
         continue
+      # use_value_spec(None) is no more than `self._value_spec = None` since fix
+      # 5bec45b: a mutator may use either to park the spec (the obligation that
+      # forbade the call was withdrawn with the side effect it guarded against)
       calls = [x for x in A.calls_in(f.node) if (A.call_name(x) or '') == 'self.use_value_spec' and x.args
                and isinstance(x.args[0], ast.Constant) and x.args[0].value is None]
       if (A.has_call(f.node, lambda d: d == 'self.use_value_spec')):
-        ctx.ob('C08.h', f.fq, not calls,
-               'a mutator that re-applies the value spec never drops it with use_value_spec(None) (which would reset '
-               'accessor_writable to True for good)', f.loc,
-               f'use_value_spec(None) at line {calls[0].lineno if calls else 0}: after this call the object accepts accessor '
-               f'writes although it was created with accessor_writable=False')
         # the re-application writes defaults through the item accessor
         # (Schema.apply: `dict_obj[key] = value`): not a user assignment, so it
         # runs with accessor writes allowed, else accessor_writable=False makes
@@ -676,6 +773,141 @@ def rule_j(ctx):
     raise AnalysisError('no scope manager found in utils/thread_local.py')
 
 
+PERMISSIVE = {'allow_writable_accessors': 'True', 'as_sealed': 'False'}
+NOTIFIERS = ('_notify_field_updates', '_on_change', '_on_bound', '_on_parent_change', '_on_path_change')
+
+
+def _reaches_notifier(idx, cls_fq, roots, depth=4):
+  """A witness chain from the statements `roots` (of a method of cls) to a
+  notification, following calls on the same object (incl. `del self[k]` and
+  `self[k] = v`); None when no notifier is reachable within `depth`."""
+  seen = set()
+  frontier = [(roots, None, ())]
+  for _ in range(depth):
+    nxt = []
+    for nodes, f, chain in frontier:
+      for root in nodes:
+        for c in A.calls_in(root):
+          d = A.call_name(c) or ''
+          if d.split('.')[0] == 'self' and d.split('.')[-1] in NOTIFIERS:
+            return chain + (d,)
+      for _, name, recv in S.self_delegations(idx, f, nodes):
+        owner = cls_fq if recv == 'self' else S.DICT
+        callee = idx.lookup_method(owner, name)
+        if callee is None or callee.fq in seen:
+          continue
+        seen.add(callee.fq)
+        nxt.append(([callee.node], callee, chain + (callee.qualname,)))
+    frontier = nxt
+  return None
+
+
+def rule_l(ctx):
+  """The library's own use of a permissive scope (allow_writable_accessors(True),
+  as_sealed(False)) covers its own write only: no change notification - which runs
+  user callbacks (onchange_callback, _on_change, _on_bound) - is reachable from the
+  body of such a `with` unless notifications are switched off in the same scope.
+  Otherwise a callback can write to ANOTHER protected value while the override,
+  which "takes precedence over per-object flags", is still installed."""
+  idx = ctx.index
+  n = 0
+  for rel in FILES:
+    m = idx.by_relpath.get(rel)
+    if m is None:
+      continue
+    for f in sorted(m.funcs.values(), key=lambda x: x.fq):
+      cls = idx.enclosing_class(f)
+      if cls is None:
+        continue
+      stack = []
+      def visit(stmts, quiet):
+        nonlocal n
+        for st in stmts:
+          if isinstance(st, (ast.FunctionDef, ast.AsyncFunctionDef, ast.ClassDef)):
+            continue
+          if isinstance(st, ast.With):
+            perm, q = None, quiet
+            for it in st.items:
+              e = it.context_expr
+              if not isinstance(e, ast.Call):
+                continue
+              nm = (A.call_name(e) or '').split('.')[-1]
+              arg = A.unparse(e.args[0]) if e.args else None
+              if nm in PERMISSIVE and arg == PERMISSIVE[nm]:
+                perm = f'{nm}({arg})'
+              if nm == 'notify_on_change' and arg == 'False':
+                q = True
+            if perm:
+              n += 1
+              wit = None if q else _reaches_notifier(idx, cls.fq, st.body)
+              ctx.ob('C08.l', f'{f.qualname}#{perm}', wit is None,
+                     'an internal permissive scope encloses no change notification (user callbacks do not run '
+                     'with the override installed)', f'{rel}:{st.lineno}',
+                     f'under {perm} the body reaches {" -> ".join(wit or ())}: a callback run from there may '
+                     f'write to any other accessor-protected / sealed value')
+            visit(st.body, q)
+            continue
+          for fld in ('body', 'orelse', 'finalbody'):
+            visit(getattr(st, fld, []) or [], quiet)
+          for h in getattr(st, 'handlers', []) or []:
+            visit(h.body, quiet)
+      visit(f.node.body, False)
+  # zero scopes is a legitimate state (nothing can leak); the thorough tier keeps the positive
+  # example `pop-under-permissive-scope`, which must be found and reported on every run
+  ctx.ob('C08.l', 'internal-permissive-scopes', True, f'{n} internal permissive scope(s) examined',
+         'pyglove/core/symbolic/dict.py:1')
+
+
+def rule_m(ctx):
+  """INFORMATION ONLY (was armed for an hour, withdrawn - see DESIGN C08):
+  `obj.sym_init_args` returns the attribute container, which is accessor-writable
+  by design (the NOTE in Object.__init__ says so, and independent demo authors use
+  `o.sym_init_args[k] = v` as a write path); the property speaks of accessors OF
+  the protected value, so this is reported as an observation, not decided.
+
+  Which API hands out a mutable reference to the storage of a protected
+  value: a public method/property of Object that returns the attribute
+  container itself (`sym_init_args`) gives callers item/attribute accessors on
+  the object's fields.  Those accessors are refused "in the same way" only if
+  the container is not more permissive than its owner: either it is created
+  with the owner's flag, or its `accessor_writable` consults the owner."""
+  idx = ctx.index
+  oc = idx.cls(S.OBJECT)
+  handed = []
+  for name, f in sorted(oc.methods.items()):
+    if name.startswith('_'):
+      continue
+    for r in ast.walk(f.node):
+      if isinstance(r, ast.Return) and r.value is not None and A.dotted(r.value) == 'self._sym_attributes':
+        handed.append(f)
+        break
+  if not handed:
+    return
+  fi = idx.lookup_method(S.OBJECT, '__init__')
+  ctor = [c for c in A.calls_in(fi.node) if (A.call_name(c) or '').endswith('Dict')
+          and A.kwarg(c, 'as_object_attributes_container') is not None]
+  created_with_owner_flag = False
+  if ctor:
+    aw = A.kwarg(ctor[0], 'accessor_writable')
+    created_with_owner_flag = aw is not None and not isinstance(aw, ast.Constant)
+  follows_owner = False
+  prop = idx.cls(S.DICT).methods.get('accessor_writable')
+  if prop is not None:
+    g = C.cfg_of(prop.node)
+    for n in g.nodes:
+      if n.kind == 'test' and _reads_attr(n.ast, '_as_object_attributes_container'):
+        for r in ast.walk(prop.node):
+          if isinstance(r, ast.Return) and r.value is not None and _reads_attr(r.value, 'accessor_writable') \
+              and any(isinstance(x, ast.Attribute) and x.attr in ('sym_parent', '_sym_parent') for x in ast.walk(r.value)):
+            follows_owner = True
+  for f in handed:
+    if not (created_with_owner_flag or follows_owner):
+      ctx.info('C08.m', f'{f.qualname}#container-permission',
+               f'{f.qualname} returns self._sym_attributes, which is always accessor-writable: '
+               f'`obj.{f.name}.x = v` works on an object whose attribute assignment is disabled (by design; not armed)',
+               f.loc)
+
+
 def run(ctx):
   ctx.consult(*FILES, 'pyglove/core/utils/thread_local.py', 'pyglove/core/symbolic/functor.py')
   rule_a(ctx)
@@ -687,6 +919,8 @@ def run(ctx):
   rule_f(ctx)
   rule_h(ctx)
   rule_j(ctx)
+  rule_l(ctx)
+  rule_m(ctx)   # information only
   from sa.rules import c18 as _c18
   _c18.rule_k(ctx, 'C08.k')   # a refused `del functor.arg` leaves the functor as it was
   ctx.assume('user subclasses outside the repository are out of scope')
